@@ -17,6 +17,7 @@ import (
 	"strings"
 
 	vmcommon "github.com/ElrondNetwork/elrond-vm-common"
+	"github.com/ElrondNetwork/elrond-vm-common/builtInFunctions"
 
 	"verif/harness/world"
 )
@@ -465,10 +466,44 @@ func Flatten(w *world.World, r *world.StepResult) []string {
 	if err := dec.Decode(&g); err != nil {
 		return []string{"flatten-error=" + err.Error()}
 	}
+	raw := []string{}
+	flat("w", g, &raw)
 	out := []string{}
-	flat("w", g, &out)
-	for i, s := range out {
-		out[i] = strings.ReplaceAll(strings.ReplaceAll(s, "\"", "?"), "\\", "?")
+	for _, s := range raw {
+		s = strings.ReplaceAll(strings.ReplaceAll(s, "\"", "?"), "\\", "?")
+		// the frozen and paused flags are shown as the real decoders read them (their byte layout is C20's business, not C18's)
+		eq := strings.LastIndex(s, "=")
+		path, val := s[:eq], s[eq+1:]
+		switch {
+		case strings.HasSuffix(path, ".props"):
+			b, err := hex.DecodeString(val)
+			if err != nil {
+				out = append(out, s)
+				continue
+			}
+			m := builtInFunctions.ESDTUserMetadataFromBytes(b)
+			if m.Frozen {
+				out = append(out, strings.TrimSuffix(path, ".props")+".frozen=true")
+			}
+			if !bytes.Equal(m.ToBytes(), b) {
+				out = append(out, path+"_noncanonical="+val)
+			}
+		case strings.HasPrefix(path, "w.paused."):
+			b, err := hex.DecodeString(val)
+			if err != nil {
+				out = append(out, s)
+				continue
+			}
+			m := builtInFunctions.ESDTGlobalMetadataFromBytes(b)
+			if m.Paused {
+				out = append(out, path+"=true")
+			}
+			if !bytes.Equal(m.ToBytes(), b) {
+				out = append(out, path+"_noncanonical="+val)
+			}
+		default:
+			out = append(out, s)
+		}
 	}
 	sort.Strings(out)
 	return out
